@@ -169,6 +169,119 @@ theorem SC.get_complete {T : Tree K B V} (sc : SC K B V) (hI : Inv sc T none) {k
     (.refl d) rfl rfl rfl (by omega) (by omega) hev
   unfold Reader.result; rw [this]
 
+/-! ### the depth cut-off -/
+
+/-- the first `n` blocks of `b`'s chain are committed and the cache holds no entry (own write or memo) of `k` at them -/
+def NoEntryN (sc : SC K B V) (T : Tree K B V) (k : K) : Nat → B → Prop
+  | 0, _ => True
+  | n + 1, b => entryAt sc k b = none ∧ ∃ x, T.find b = some x ∧ NoEntryN sc T k n x.prev
+
+theorem NoEntryN.frame {sc sc' : SC K B V} {T : Tree K B V} {k : K} {n : Nat} {b : B}
+    (h : NoEntryN sc T k n b) (hf : ∀ b', entryAt sc k b' = none → entryAt sc' k b' = none) : NoEntryN sc' T k n b := by
+  induction n generalizing b with
+  | zero => trivial
+  | succ n ih =>
+    obtain ⟨h1, x, hx, h2⟩ := h
+    exact ⟨hf b h1, x, hx, ih h2⟩
+
+theorem RFrame.none_keep {sc sc' : SC K B V} {r : Reader K B V} (F : RFrame sc sc' r)
+    (hnm : ∀ e, r.pc ≠ .memo e) (k : K) (b : B) (h : entryAt sc k b = none) : entryAt sc' k b = none := by
+  cases h' : entryAt sc' k b with
+  | none => rfl
+  | some e =>
+    rcases F.new k b e h' with h1 | ⟨_, _, e', hpc, _⟩
+    · rw [h] at h1; cases h1
+    · exact absurd hpc (hnm e')
+
+/-- from `link cur cnt` with `maxDepth + 1 - cnt` entry-free committed blocks ahead, the walk ends in a miss -/
+theorem Reader.run_cutoff {T : Tree K B V} {k : K} {d : B} :
+    ∀ (r0 : Nat) (sc : SC K B V) (r : Reader K B V) (cur : B) (cnt fuel : Nat),
+      Inv sc T none → NoEntryN sc T k r0 cur → Walk T k d cur → r.key = k → r.blk = d → r.pc = .link cur cnt →
+      0 < r0 → cnt + r0 = sc.maxDepth + 1 → 2 * r0 + 1 ≤ fuel → (Reader.run fuel sc r).1.evictions = sc.evictions →
+      (Reader.run fuel sc r).2.pc = .done none := by
+  intro r0
+  induction r0 with
+  | zero => intro sc r cur cnt fuel _ _ _ _ _ _ hpos _ _ _; omega
+  | succ n ih =>
+    intro sc r cur cnt fuel hI hne hwalk hk hd hpc _ hc hfuel hev
+    obtain ⟨hnone, x, hx, hrest⟩ := hne
+    obtain ⟨f2, rfl⟩ : ∃ f2, fuel = f2 + 2 := ⟨fuel - 2, by omega⟩
+    have hnd1 : ∀ v', r.pc ≠ .done v' := by intro v' h; rw [hpc] at h; cases h
+    rw [Reader.run_succ _ _ _ hnd1] at hev ⊢
+    have hR : RInv sc T r := by unfold RInv; rw [hpc, hk, hd]; exact hwalk
+    have e1 : (r.stepSC sc).evictions = sc.evictions :=
+      Nat.le_antisymm (by rw [← hev]; exact Reader.run_ev_le _ _ _) (Reader.stepSC_ev_le sc r)
+    obtain ⟨hI1, hR1⟩ := Reader.step_inv hI hR e1
+    have hF := Reader.stepSC_frame sc r e1
+    have hlink : linkAt sc cur = some x.prev := hI.link_of_find hx
+    have hpc1 : r.stepPc sc = .entry cur cnt (some x.prev) := by
+      unfold Reader.stepPc; rw [hpc]; simp only [LRU.get_snd]
+      unfold linkAt at hlink; rw [hlink]
+    have hmd1 : (r.stepSC sc).maxDepth = sc.maxDepth := hF.maxDepth
+    have hnm1 : ∀ e, r.pc ≠ .memo e := by intro e h; rw [hpc] at h; cases h
+    let r1 : Reader K B V := { r with pc := r.stepPc sc }
+    have hnd2 : ∀ v', r1.pc ≠ .done v' := by intro v' h; simp only [r1] at h; rw [hpc1] at h; cases h
+    rw [Reader.run_succ _ _ _ hnd2] at hev ⊢
+    have e2 : (r1.stepSC (r.stepSC sc)).evictions = (r.stepSC sc).evictions :=
+      Nat.le_antisymm (by rw [← e1] at hev; rw [← hev]; exact Reader.run_ev_le _ _ _) (Reader.stepSC_ev_le _ r1)
+    obtain ⟨hI2, _⟩ := Reader.step_inv hI1 hR1 e2
+    have hF2 := Reader.stepSC_frame (r.stepSC sc) r1 e2
+    have hnm2 : ∀ e, r1.pc ≠ .memo e := by intro e h; simp only [r1] at h; rw [hpc1] at h; cases h
+    have hnone1 : entryAt (r.stepSC sc) k cur = none := hF.none_keep hnm1 k cur hnone
+    cases hm : alookup (r.stepSC sc).cache k with
+    | none =>
+      have hpc2 : r1.stepPc (r.stepSC sc) = .done none := by
+        unfold Reader.stepPc; simp only [r1, hpc1, hk, hm]
+      rw [hpc2, Reader.run_of_done _ _ _ rfl]
+    | some m =>
+      have hpe : m.peek cur = none := by rw [← entryAt_eq_peek hm]; exact hnone1
+      by_cases hn0 : n = 0
+      · have hpc2 : r1.stepPc (r.stepSC sc) = .done none := by
+          unfold Reader.stepPc
+          simp only [r1, hpc1, hk, hm, LRU.get_snd, hpe, hmd1]
+          have : cnt + 1 > sc.maxDepth := by omega
+          simp [this]
+        rw [hpc2, Reader.run_of_done _ _ _ rfl]
+      · have hpc2 : r1.stepPc (r.stepSC sc) = .link x.prev (cnt + 1) := by
+          unfold Reader.stepPc
+          simp only [r1, hpc1, hk, hm, LRU.get_snd, hpe, hmd1]
+          have : ¬ (cnt + 1 > sc.maxDepth) := by omega
+          simp [this]
+        rw [hpc2] at hev ⊢
+        have hmd2 : (r1.stepSC (r.stepSC sc)).maxDepth = sc.maxDepth := by rw [hF2.maxDepth, hmd1]
+        -- `cur` wrote nothing for `k` (its entry would be present)
+        have hnw : alookup x.writes k = none := by
+          cases hw : alookup x.writes k with
+          | none => rfl
+          | some e => have := (hI.present hx hw).2; rw [hnone] at this; cases this
+        have hrest2 : NoEntryN (r1.stepSC (r.stepSC sc)) T k n x.prev :=
+          (hrest.frame (fun b' h => hF.none_keep hnm1 k b' h)).frame (fun b' h => hF2.none_keep hnm2 k b' h)
+        exact ih (r1.stepSC (r.stepSC sc)) { r1 with pc := .link x.prev (cnt + 1) } x.prev (cnt + 1) f2 hI2 hrest2
+          (Walk.snoc hwalk hx hnw) hk hd rfl (by omega) (by rw [hmd2]; omega) (by omega) (by rw [hev, e2, e1])
+
+/-- the depth cut-off is exact: if the first `maxDepth + 1` blocks of the chain of `d` are committed and the cache holds
+    no entry of `k` at any of them, `StateCache.Get(k, d)` misses — whatever lies beyond -/
+theorem SC.get_cutoff {T : Tree K B V} (sc : SC K B V) (hI : Inv sc T none) {k : K} {d : B}
+    (hne : NoEntryN sc T k (sc.maxDepth + 1) d) (hev : (sc.get k d).1.evictions = sc.evictions) :
+    (sc.get k d).2 = none := by
+  unfold SC.get at hev ⊢
+  simp only at hev ⊢
+  have hfuel : 2 * sc.maxDepth + 4 = (2 * sc.maxDepth + 3) + 1 := by omega
+  rw [hfuel] at hev ⊢
+  rw [Reader.run_succ _ _ _ (by intro v' h; cases h)] at hev ⊢
+  have hs : (Reader.init k d).stepSC sc = sc := by unfold Reader.stepSC Reader.init; rfl
+  rw [hs] at hev ⊢
+  cases hm : alookup sc.cache k with
+  | none =>
+    have hp : (Reader.init k d).stepPc sc = .done none := by unfold Reader.stepPc Reader.init; simp only [hm]
+    rw [hp, Reader.run_of_done _ _ _ rfl]; rfl
+  | some m =>
+    have hp : (Reader.init k d).stepPc sc = .link d 0 := by unfold Reader.stepPc Reader.init; simp only [hm]
+    rw [hp] at hev ⊢
+    have := Reader.run_cutoff (sc.maxDepth + 1) sc { Reader.init k d with pc := .link d 0 } d 0 (2 * sc.maxDepth + 3)
+      hI hne (.refl d) rfl rfl rfl (by omega) (by omega) (by omega) hev
+    unfold Reader.result; rw [this]
+
 theorem pendLookup_cons_none {m : List (K × Entry V)} {rest : List (List (K × Entry V))} {k : K}
     (h : pendLookup (m :: rest) k = none) : alookup m k = none ∧ pendLookup rest k = none := by
   unfold pendLookup at h
@@ -243,5 +356,6 @@ theorem Sys.step_complete {T : Tree K B V} (s : Sys H K B V) (op : Op H K B V) (
   | tcommit _ => simp [Sys.ctx] at hctx
   | bset _ _ _ => simp [Sys.ctx] at hctx
   | bcommit _ => simp [Sys.ctx] at hctx
+  | srem _ => simp [Sys.ctx] at hctx
 
 end Verif.SC
